@@ -247,6 +247,25 @@ def main():
         names = [c[1].split("::")[0] for c in sorted(calls)]
         return ["def matchCascade : List String := [" + ", ".join(lean_str(n) for n in names) + "]"]
 
+    @group("cli_join")
+    def _():
+        # how the CLI turns several input files into one text
+        src = read("crates/cgt-cli/src/main.rs")
+        i = src.find("fn read_and_concatenate_files(")
+        if i < 0:
+            raise Missing("main.rs: fn read_and_concatenate_files not found")
+        j = src.find("\nfn ", i + 10)
+        body = re.sub(r"\s+", "", src[i:j if j > 0 else len(src)])
+        want = 'letmutcontents=Vec::with_capacity(files.len());forpathinfiles{letcontent=fs::read_to_string(path)?;contents.push(content);}Ok(contents.join("'
+        k = body.find(want)
+        if k < 0:
+            raise Missing("main.rs: read_and_concatenate_files is not `read each file to a string, push, join`")
+        m = re.match(r'((?:\\.|[^"\\])*)"\)\)\}$', body[k + len(want):])
+        if not m:
+            raise Missing("main.rs: read_and_concatenate_files: separator literal not found")
+        sep = m.group(1)
+        return [f'def cliFileJoin : String := "{sep}"']
+
     @group("validator")
     def _():
         # every `if <expr> <cmp> Decimal::ZERO { result.errors.push(` of validation.rs, by site
@@ -288,7 +307,7 @@ def main():
         old = open(OUT, encoding="utf-8").read()
     except OSError:
         pass
-    order = ["window", "taxyear", "mcp_year", "disposal_round", "exemptions", "money_round", "pdf_round", "grammar", "writer", "validator", "cascade", "rsu"]
+    order = ["window", "taxyear", "mcp_year", "disposal_round", "exemptions", "money_round", "pdf_round", "grammar", "writer", "validator", "cascade", "cli_join", "rsu"]
     lines = []
     for gname in order:
         if gname in GROUPS:
